@@ -33,6 +33,7 @@ type batchLine struct {
 	Fail    string   // "" = valid line, else the error class it is built to fail with
 	ErrLike string   // substring expected in the reported error
 	DupOf   int      // >=0: exact duplicate (same result folder) of that line index
+	Variant bool     // configuration variant of a project: same input files, other settings on the line
 	Marker  bool     // the run sets the numerical-instability marker (a per-run text in the result files)
 }
 
